@@ -310,8 +310,8 @@ fn run_known(args: &Args) -> Report {
     // fixed (0cfc9d8): set_path on a cannot-be-a-base URL tested for the leading '/' before tab/LF/CR removal
     wit(&mut rep, "F-C06-6", &["C02", "C03", "C05", "C06"], "a:b", Op::SetPath("\t/ y".into()),
         &|u| !u.cannot_be_a_base() || u.as_str() == "a:/ y");
-    // open: push(".<TAB>.") is not skipped by extend() (only the literal "." / ".." are), the parser's input drops the
-    // TAB and the path state reads "..": the last segment is popped
+    // fixed (9cd6187): push(".<TAB>.") was not skipped by extend() (only the literal "." / ".." were), the parser's input
+    // dropped the TAB and the path state read "..": the last segment was popped
     wit(&mut rep, "F-C06-7", &["C06"], "http://h/a/b", Op::Psm(vec![PsmOp::Push(".\t.".into())]),
         &|u| u.as_str() == "http://h/a/");
     rep
